@@ -53,6 +53,7 @@ package parser
 
 import (
 	"context"
+	"errors"
 	"fmt"
 	"strings"
 	"sync"
@@ -584,6 +585,13 @@ func (p *Parser) ParseContext(ctx context.Context, tokens []token.Token) (*ast.A
 		if err != nil {
 			// Clean up the AST on error
 			ast.ReleaseAST(result)
+			// A cancellation observed inside a nested production (CTE, CASE, sub-query,
+			// JOIN condition, set operation ...) is re-wrapped there as a syntax error
+			// whose text keeps the cause but whose chain does not; report it as the
+			// context's error so that errors.Is(err, ctx.Err()) holds for every poll site.
+			if cerr := ctx.Err(); cerr != nil && !errors.Is(err, cerr) {
+				return nil, fmt.Errorf("parsing cancelled: %w", cerr)
+			}
 			return nil, err
 		}
 		result.Statements = append(result.Statements, stmt)
